@@ -387,7 +387,12 @@ func (a *align) RemoveCharacterSites(c []uint8, cutoff float64, ends bool, ignor
 		cutoff = 0
 	}
 
-	toremove := make([]int, 0, a.Length())
+	// (an alignment without any sequence has length -1)
+	capacity := a.Length()
+	if capacity < 0 {
+		capacity = 0
+	}
+	toremove := make([]int, 0, capacity)
 	// To remove only positions with this character at start and ends positions
 	firstcontinuous := -1
 	lastcontinuous := a.Length()
